@@ -1,4 +1,5 @@
 //@ assume: the peer_read thread's body (closure 1 of conn::poll) is lifted to a function (T7: captured variables become parameters); the socket, the Codec (C19/codec decides Codec::read_inner), the message handler, the tracker counters, the attachment file and the send channel are abstract (ASSUMED of Codec::read: an attachment chunk always carries its bytes, as read_inner builds it); `try_break!` is expanded mechanically per its macro_rules definition in the same file (T6 expand_macro), with `Err(Error::Connection(ref e)) if e.kind() == io::ErrorKind::X` => `Err(Error::Connection(e)) if kind_is_X(&e)` (the io error is an opaque value with a kind); thread::sleep abstract; T3: log macros removed; the peer-address string for logging dropped
+//@ assume: Codec::expect_attachment carries the precondition PROVED NECESSARY on the real code in C19/codec (its `assert!(self.state.is_none())` never fires only if the codec is between messages); Codec::read answers `idle` after an ordinary message (C19/codec: read_inner); ASSUMED of the handler: only an ordinary message starts an attachment. With these the reader loop's call of expect_attachment is an OBLIGATION here: it is reached only right after an ordinary message was read and nothing else was done to the codec
 //@ assume: decided here (C19 'a frame with the wrong magic, an announced length above the limit or inconsistent counts is REFUSED' -- at the connection level a refusal means the connection ends, nothing after the refused header is parsed as a frame): the reader loop goes round again after a result of Codec::read ONLY IF that result was a message, a timeout / would-block of the socket, or one of the four errors that say nothing about the byte stream (Store, Chain, Internal, NoDandelionRelay); after ANY OTHER error -- bad magic, over-limit length, BadMessage, a serialisation error -- it leaves the loop and shuts the connection down; an unknown message type is skipped without being handed to the handler; every other decoded message is handed to the handler exactly once
 //@ assumed_items: 11
 //@ fns: conn::poll (closure 1: the peer_read loop), try_break! (expanded)
@@ -42,22 +43,26 @@ impl Tracker {
 pub struct Stopped { pub _p: u8 }
 impl Stopped { #[verifier::external_body] pub fn load_relaxed(&self) -> (r: bool) { unimplemented!() } }
 /// ghost: results of read() seen so far, messages handed to the handler so far
-pub struct Codec { pub reads: Ghost<Seq<Result<u64, Error>>>, pub shut: Ghost<bool> }
+pub struct Codec { pub reads: Ghost<Seq<Result<u64, Error>>>, pub shut: Ghost<bool>, pub idle: Ghost<bool> }
 pub open spec fn msg_id(m: Message) -> u64 { match m { Message::Unknown(t) => t as u64, Message::Attachment(u, _) => u.left as u64, Message::Headers(d) => d.remaining, Message::Other(v) => v } }
 impl Codec {
     #[verifier::external_body]
     pub fn read(&mut self) -> (r: (Result<Message, Error>, u64))
         ensures final(self).shut == old(self).shut, (r.0 matches Ok(Message::Attachment(_, b)) ==> b is Some),
+            // C19/codec (read_inner): an ordinary decoded message leaves the codec between messages
+            (r.0 matches Ok(Message::Other(_)) ==> final(self).idle@),
             final(self).reads@ == old(self).reads@.push(match r.0 { Ok(m) => Ok::<u64, Error>(msg_id(m)), Err(e) => Err::<u64, Error>(e) }) { unimplemented!() }
     #[verifier::external_body]
-    pub fn expect_attachment(&mut self, meta: AttachmentMeta) ensures final(self).reads == old(self).reads, final(self).shut == old(self).shut { unimplemented!() }
+    pub fn expect_attachment(&mut self, meta: AttachmentMeta) requires old(self).idle@ ensures final(self).reads == old(self).reads, final(self).shut == old(self).shut { unimplemented!() }
     #[verifier::external_body]
     pub fn shutdown_both(&mut self) ensures final(self).reads == old(self).reads, final(self).shut@ { unimplemented!() }
 }
 pub struct Handler { pub consumed: Ghost<Seq<u64>> }
 impl Handler {
     #[verifier::external_body]
-    pub fn consume(&mut self, m: Message) -> (r: Result<Consumed, Error>) ensures final(self).consumed@ == old(self).consumed@.push(msg_id(m)) { unimplemented!() }
+    pub fn consume(&mut self, m: Message) -> (r: Result<Consumed, Error>) ensures final(self).consumed@ == old(self).consumed@.push(msg_id(m)),
+        // ASSUMED of the message handler: only an ordinary message (the txhashset archive announcement) starts an attachment
+        (r matches Ok(Consumed::Attachment(_, _)) ==> m is Other) { unimplemented!() }
 }
 pub struct ConnHandle { pub _p: u8 }
 impl ConnHandle { #[verifier::external_body] pub fn send(&self, m: Msg) -> (r: Result<(), Error>) { unimplemented!() } }
